@@ -184,7 +184,10 @@ pub fn exec(sc: &Scenario) -> Outcome {
                 let r2 = h.cmd(c, &[b"AUTH".to_vec(), PASSWORD.as_bytes().to_vec()], &[]).reply;
                 if r2 != Some(R::ok()) { h.violate("C17/right-password-refused".into(), format!("{:?}", r2.map(|r| r.short()))); }
                 let r3 = h.cmd_s(c, &["GET", "kstr"]);
-                if r3 != Some(R::Bulk(b"v".to_vec())) { h.violate("C17/authenticated-read-failed".into(), format!("{:?}", r3.map(|r| r.short()))); }
+                // (judged only if the scenario still creates the key: a minimised scenario may have lost its fixture steps)
+                let has_fixture = matches!(sc.steps.first(), Some(Step::Connect { c: 0, .. })) && matches!(sc.steps.get(1), Some(Step::Cmd { c: 0, a, .. }) if a.first().map_or(false, |x| x.0 == b"AUTH"))
+                    && sc.steps.iter().any(|s| matches!(s, Step::Cmd { c: 0, a, .. } if a.len() == 3 && a[0].0 == b"SET" && a[1].0 == b"kstr" && a[2].0 == b"v"));
+                if has_fixture && r3 != Some(R::Bulk(b"v".to_vec())) { h.violate("C17/authenticated-read-failed".into(), format!("{:?}", r3.map(|r| r.short()))); }
                 if let Some(u) = h.cl(1) { if !h.sim.clients[u].eof && !h.sim.clients[u].closed && h.cs[u].proto_err.is_none() {
                     let r4 = h.cmd_s(u, &["GET", "kstr"]);
                     if let Some(rep) = r4 { if !rep.is_err() { h.violate("C17/authentication-not-per-connection".into(), format!("after another connection authenticated, the unauthenticated one read {}", rep.short())); } }
